@@ -1,0 +1,18 @@
+//go:build verif
+
+package bandersnatch
+
+import "github.com/crate-crypto/go-ipa/bandersnatch/fr"
+
+// Verification hooks (build tag "verif").
+
+// VerifMsmInner runs the bucket method with an explicit window width c on
+// already partitioned scalars (internal entry point of MultiExp).
+func VerifMsmInner(p *PointProj, c int, points []PointAffine, scalars []fr.Element, splitFirstChunk bool) {
+	msmInnerPointProj(p, c, points, scalars, splitFirstChunk)
+}
+
+// VerifPartitionScalars exposes the signed-digit partitioning.
+func VerifPartitionScalars(scalars []fr.Element, c uint64, scalarsMont bool, nbTasks int) ([]fr.Element, int) {
+	return partitionScalars(scalars, c, scalarsMont, nbTasks)
+}
